@@ -1,40 +1,44 @@
 #!/bin/bash
-# usage: tools/try_seed.sh <prop> <k> [tier] [extra check ids...]
+# usage: [SEED_ROOT=/tmp/seed] [SEED_OFFSET=0] tools/try_seed.sh <prop> <k> [tier] [extra check ids...]
 # 1. confirms the seeded change in a scratch worktree: demo FAILS with the patch, PASSES without; touched packages' tests pass
-# 2. applies the patch to /repo, runs ./check <prop> <tier> (default quick), restores /repo
-# 3. copies the seed to /verif/seeded/<prop>-<k>/ with the results
+# 2. runs ./check <prop> <tier> (default quick) against /repo's HEAD + the patch: the patch is applied to a scratch worktree
+#    passed as XV_REPO (same effect as `git -C /repo apply`, check, `git -C /repo checkout -- .`, but /repo is never dirty,
+#    other checks can go on meanwhile, and the committed evidence is not overwritten by a run against a changed tree)
+# 3. copies the seed to /verif/seeded/<prop>-<k+offset>/ with the results
 export GOFLAGS=-mod=mod GOPROXY=off GOSUMDB=off GOTOOLCHAIN=local
 P=$1; K=$2; TIER=${3:-quick}; shift; shift; shift
-SRC=/tmp/seed/$P/$K
+SRC=${SEED_ROOT:-/tmp/seed}/$P/$K
 [ -f $SRC/patch.diff ] || { echo "no $SRC/patch.diff"; exit 2; }
-WT=/tmp/confirm-$P-$K
-OUT=/verif/seeded/$P-$K
+N=$((K+${SEED_OFFSET:-0}))
+WT=/tmp/confirm-$P-$N
+OUT=/verif/seeded/$P-$N
 mkdir -p $OUT
+PAT="[A-Za-z0-9_/.-]*zz_seed[A-Za-z_0-9]*\.go\|[A-Za-z0-9_/.-]*/main\.go"
 if [ ! -f $OUT/confirmed.txt ]; then
   rm -rf $WT; git -C /repo worktree prune; git -C /repo worktree add -q --detach $WT HEAD || exit 2
   DEMO=$(ls $SRC/demo/* | head -1)
-  DEST=$(head -6 $DEMO | grep -m1 -io "[A-Za-z0-9_/.-]*zz_seed[A-Za-z_0-9]*\.go\|[A-Za-z0-9_/.-]*/main\.go"  | head -1)
   RUN=$(python3 -c "import json;print(json.load(open('$SRC/meta.json'))['demo_cmd'])")
   # use only the `go test`/`go run` part of the demo command
   GOCMD=$(echo "$RUN" | grep -o "go \(test\|run\) .*" | tail -1 | sed 's/ 2>&1.*//; s/ |.*//')
-  echo "demo -> $DEST ; cmd: $GOCMD" > $OUT/confirm.log
-  for f in $SRC/demo/*; do d=$(head -6 $f | grep -m1 -io "[A-Za-z0-9_/.-]*zz_seed[A-Za-z_0-9]*\.go\|[A-Za-z0-9_/.-]*/main\.go"  | head -1); mkdir -p $WT/$(dirname $d); cp $f $WT/$d; done
+  echo "cmd: $GOCMD" > $OUT/confirm.log
+  for f in $SRC/demo/*; do d=$(head -6 $f | grep -m1 -io "$PAT" | head -1); [ -z "$d" ] && continue; d=${d#/}; mkdir -p $WT/$(dirname $d); cp $f $WT/$d; echo "demo $f -> $d" >> $OUT/confirm.log; done
   (cd $WT && timeout 600 bash -c "$GOCMD") > $OUT/demo_without.txt 2>&1; R0=$?
   (cd $WT && git apply $SRC/patch.diff) || { echo "patch does not apply" >> $OUT/confirm.log; }
   (cd $WT && timeout 600 bash -c "$GOCMD") > $OUT/demo_with.txt 2>&1; R1=$?
   PK=$(cd $WT && git diff --name-only | grep "\.go$" | xargs -n1 dirname | sort -u | sed 's#^#./#')
-  for f in $SRC/demo/*; do d=$(head -6 $f | grep -m1 -io "[A-Za-z0-9_/.-]*zz_seed[A-Za-z_0-9]*\.go\|[A-Za-z0-9_/.-]*/main\.go"  | head -1); rm -f $WT/$d; done
+  for f in $SRC/demo/*; do d=$(head -6 $f | grep -m1 -io "$PAT" | head -1); [ -z "$d" ] && continue; rm -f $WT/${d#/}; done
   (cd $WT && go build $PK && timeout 900 go test -mod=mod -vet=off -count=1 $PK) > $OUT/pkg_tests.txt 2>&1; R2=$?
   echo "demo without change exit=$R0 (want 0); with change exit=$R1 (want !=0); package tests exit=$R2 ($(grep -c '^ok' $OUT/pkg_tests.txt) ok, $(grep -c '^FAIL\|^---' $OUT/pkg_tests.txt) fail lines)" | tee -a $OUT/confirm.log
   git -C /repo worktree remove --force $WT; rm -rf $WT
   if [ $R0 -eq 0 ] && [ $R1 -ne 0 ]; then echo confirmed > $OUT/confirmed.txt; else echo "NOT CONFIRMED"; fi
   cp $SRC/patch.diff $SRC/meta.json $OUT/; mkdir -p $OUT/demo; cp $SRC/demo/* $OUT/demo/
 fi
-# run the checks on /repo with the patch applied
-git -C /repo apply $SRC/patch.diff || { echo "patch does not apply to /repo"; exit 2; }
+# run the checks against HEAD + patch
+rm -rf $WT; git -C /repo worktree prune; git -C /repo worktree add -q --detach $WT HEAD || exit 2
+git -C $WT apply $SRC/patch.diff || { echo "patch does not apply to HEAD" | tee -a $OUT/result.txt; git -C /repo worktree remove --force $WT; exit 2; }
 for C in $P "$@"; do
-  (cd /verif && timeout 3600 ./check $C $TIER) > $OUT/check_${C}_$TIER.txt 2>&1; RC=$?
+  (cd /verif && XV_REPO=$WT timeout 3600 ./check $C $TIER) > $OUT/check_${C}_$TIER.txt 2>&1; RC=$?
   echo "check $C $TIER exit=$RC: $(grep -c '^VIOLATION' $OUT/check_${C}_$TIER.txt) VIOLATION line(s): $(grep '^VIOLATION' $OUT/check_${C}_$TIER.txt | head -3 | tr '\n' ' ')" | tee -a $OUT/result.txt
   tail -1 $OUT/check_${C}_$TIER.txt
 done
-git -C /repo checkout -- . ; git -C /repo status --short | grep -v "^??" | head -3
+git -C /repo worktree remove --force $WT; rm -rf $WT
